@@ -673,9 +673,14 @@ def r146(ctx, rep, f, ev, cg, reach):
         "Data Format": [["data_format"]],
         "System ID": [["system_id"]],
     }
-    rep.floor("R14.6-rows", len([k for k in exp if k in rows]), 18, "labelled report rows found in stats_report.rs")
+    # a row is identified by its label; a label that was reworded is not a wrong statistic — it is noted, and the
+    # floor below keeps the rule from passing vacuously
+    rep.floor("R14.6-rows", sum(len(v) for v in rows.values()), 18, "labelled report rows found in stats_report.rs")
     for label, want in sorted(exp.items()):
         got = rows.get(label)
+        if got is None:
+            rep.note("report row \"%s\" not found (label reworded or row removed): its value source is not decided" % label)
+            continue
         rep.check(got == want, "R14.6", "R14.6|row|%s" % label, "row \"%s\" shows %s" % (label, want[0]), W,
                   "report row \"%s\" takes its value from %s, expected %s" % (label, got, want))
     # data size rows
